@@ -11,7 +11,7 @@ use crate::model::nat::{hex, U};
 use curve25519_dalek::verif::{Fe, FE_LIMBS, FIELD_IMPL};
 use rayon::prelude::*;
 use serde_json::json;
-use stateright::{Checker, Model, Property};
+use stateright::{Model, Property};
 use std::sync::Arc;
 
 /// Per-limb description of the serial representation compiled in.
@@ -604,24 +604,7 @@ pub fn run(ctx: &Ctx) {
         max_depth,
         ctx: Arc::new(CtxRef(ctx as *const Ctx)),
     };
-    let checker = m
-        .checker()
-        .threads(rayon::current_num_threads())
-        .spawn_bfs()
-        .join();
-    ctx.states.fetch_add(checker.unique_state_count() as u64, std::sync::atomic::Ordering::Relaxed);
-    ctx.count("machine_generated_states", checker.state_count() as u64);
-    ctx.count("machine_max_depth", checker.max_depth() as u64);
-    if let Some(path) = checker.discovery("exact mod p") {
-        let last = path.last_state().clone();
-        let acts: Vec<String> = path.into_actions().iter().map(|a| format!("{:?}", a)).collect();
-        ctx.violation(
-            "fe.machine",
-            last.bad.as_deref().unwrap_or("?"),
-            json!({"kind": "machine", "actions": acts, "final_limbs": last.limbs}),
-        );
-    } else {
-        ctx.sample_tag("machine", json!({"note": "deepest layer explored without violation", "depth": max_depth}));
-    }
-    ctx.nontriv(checker.unique_state_count() as u64);
+    let o = crate::bfs::explore(&m, max_depth as usize, |s| s.bad.clone(), 8);
+    crate::bfs::finish(ctx, "fe.machine", &o, max_depth as usize);
+    ctx.sample_tag("machine", json!({"note": "BFS over raw limb representations; each transition = one real field operation compared with integer arithmetic mod p", "depth": max_depth}));
 }
